@@ -2,7 +2,7 @@
 import collections, json, re
 
 from ..core import rule, site, Broken
-from ..facts import events, last_field
+from ..facts import TERMQ, events, last_field
 from ..inline import Super, TooBig
 from .c12_queries import receiver_records
 
@@ -241,6 +241,109 @@ def uac_release(run, F):
                                           '%s is accessed after this party dropped its reference on %s without being the last owner (election at %s): the last owner may already have completed the receiver and destroyed the operation' % (hit, member, S.where(n)),
                                           path=['entry point: %s' % root['qname'], 'election: %s' % S.where(n), 'access: %s' % S.where(x)])
                             break
+
+
+# ---------------------------------------------------------------------------------------------
+# R-UAC-COMPLETE: nothing of the operation is touched after its receiver was completed
+UACC_EXEMPT = {
+    # (function whose later access is reported, member): reason
+    ('unifex::_take_until::_stream::type::cleanup_sender::_op::type::start', 'cleanupReady_'):
+        'the completion inside source_cleanup_error() needs the *second* arrival on cleanupCompleted_; when start() reaches it through its catch handler the trigger cleanup has not been started yet (start() starts it below), so this arrival is the first and returns without completing',
+}
+
+
+@rule('R-UAC-COMPLETE', ['C02', 'C01'], floor=150)
+def uac_complete(run, F):
+    """after an entry point has completed its receiver (set_value/set_error/set_done on the operation's own receiver), no member of that operation is read or written on any later non-exceptional path of the same entry point (callees inlined; accesses made by functions of *other* classes - the context, a sibling operation - are not this operation's state): the consumer may destroy the operation inside the completion call"""
+    from .dereg import family_roots
+    from ..facts import accesses
+    gcache = {}
+    fams = sorted({f['_family'] for f in F.funcs if any(e['k'] == 'call' and e['callee'].get('qname') in TERMQ for _, _, e in events(f))})
+    n = 0
+    for fam in fams:
+        try:
+            roots, supers = family_roots(F, fam, gcache)
+        except TooBig:
+            continue
+        for root in roots:
+            S = supers[id(root)]
+            for t, ch, p in S.terminals():
+                n += 1
+                tf = S.fn[t]
+                trec = tf.get('record') or (tf.get('parent_fn') or '').split('@')[0].rsplit('::', 1)[0]
+                run.inst('%s %s' % (S.where(t), root['qname']), 'nothing of the operation is touched after set_%s' % ch, key=(root['qname'], tf['qname'], S.line(t)))
+                after = S.reach([m for m, l in S.succ.get(t, []) if l != 'exc'], skip_exc=True)
+                for x in sorted(after):
+                    ex = S.ev[x]
+                    if (ex.get('macro') or '').startswith(('UNIFEX_ASSERT', 'assert')): continue
+                    xf = S.fn[x]
+                    xrec = xf.get('record') or (xf.get('parent_fn') or '').split('@')[0].rsplit('::', 1)[0]
+                    if xrec != trec: continue          # another object's member function (context, sibling operation, stream)
+                    hit = None
+                    for pth, rw in accesses(ex):
+                        comps = [c for c in pth.split('.') if c]
+                        if not comps or pth.startswith(('#', '<', '&')): continue
+                        named = [c for c in comps if not c.endswith('()')]
+                        if comps[0] == 'this' and len(named) >= 2: hit = pth; break
+                    if hit:
+                        if (xf['qname'], last_field(hit)) in UACC_EXEMPT: break
+                        run.violation(xf['qname'], 'touch-after-complete:' + last_field(hit), S.where(x),
+                                      '%s is accessed after the receiver was completed with set_%s at %s on the same path: the consumer may already have destroyed the operation' % (hit, ch, S.where(t)),
+                                      path=['entry point: %s' % root['qname'], 'completion: %s' % S.where(t), 'access: %s' % S.where(x)])
+                        break
+    if n == 0: raise Broken('no completion found')
+
+
+# ---------------------------------------------------------------------------------------------
+# R-UAC-HANDOFF: the side of an ownership hand-off that does not delete touches nothing
+DELETERS = {'deleter_', 'deallocate', 'destroy', 'unsafe_deallocate'}
+
+
+@rule('R-UAC-HANDOFF', ['C09', 'C02', 'C04'], floor=2)
+def uac_handoff(run, F):
+    """where the outcome of a compare-exchange / exchange / decrement on an operation's state word decides which party deletes the shared state (one side of the branch reaches the deleter, the other does not), the side that does *not* delete - it has just handed the responsibility to the other party - touches no member of the operation any more (spawn_future's drop() and negotiate_deletion()): the other party may free the state at once"""
+    from ..facts import accesses, expr_eids, expr_paths, Graph
+    n = 0
+    for f in F.funcs:
+        if not f.get('blocks'): continue
+        if not any((e['k'] == 'call' and (e['callee'].get('name') or '').split('::')[-1] in DELETERS) or e['k'] == 'delete' for _, _, e in events(f)): continue
+        G = Graph(f)
+        D = {m for m, e in G.ev.items() if (e.get('k') == 'call' and (e['callee'].get('name') or '').split('::')[-1] in DELETERS) or e.get('k') == 'delete'}
+        cas = {e.get('eid'): m for m, e in G.ev.items() if e.get('k') == 'call' and e['callee'].get('name') in ('compare_exchange_strong', 'compare_exchange_weak', 'exchange', 'fetch_sub') and e['callee'].get('base')}
+        if not cas: continue
+        var = {}
+        for m, e in G.ev.items():
+            if e.get('k') == 'decl':
+                for v in e['vars']:
+                    i = v.get('init') or {}
+                    if i.get('op') == 'call' and i.get('eid') in cas: var[v['var']] = i['eid']
+        for t, e in G.ev.items():
+            if e.get('k') != 'term' or e.get('cond') is None: continue
+            if not (set(expr_eids(e['cond'])) & set(cas)) and not (set(expr_paths(e['cond'])) & set(var)): continue
+            st = sf = None
+            for m, l in G.succ.get(t, []):
+                if l is True: st = m
+                elif l is False: sf = m
+            if st is None or sf is None: continue
+            rt, rf = G.reach(st), G.reach(sf)
+            dt, df = bool(D & rt), bool(D & rf)
+            if dt == df: continue
+            side = rf if dt else rt
+            n += 1
+            run.inst(site(f, G.line(t)), 'the side that hands deletion over touches nothing', key=(f['qname'], G.line(t)))
+            for x in sorted(side):
+                ex = G.ev[x]
+                if (ex.get('macro') or '').startswith(('UNIFEX_ASSERT', 'assert')): continue
+                hit = None
+                for pth, rw in accesses(ex):
+                    comps = [c for c in pth.split('.') if c]
+                    named = [c for c in comps if not c.endswith('()')]
+                    if comps and comps[0] == 'this' and len(named) >= 2: hit = pth; break
+                if hit:
+                    run.violation(f['qname'], 'touch-after-handoff:' + last_field(hit), '%s:%s' % (f['file'], G.line(x)),
+                                  '%s is accessed on the side of the hand-off at line %s that has just given the responsibility for deleting the shared state to the other party: that party may already have freed it' % (hit, G.line(t)))
+                    break
+    if n == 0: raise Broken('no ownership hand-off (state-word test deciding who deletes) found')
 
 
 # ---------------------------------------------------------------------------------------------
